@@ -61,7 +61,7 @@ func c09Sequence(b *Batch, idx int) {
 		rng.Read(k)
 		keys = append(keys, c09Key{k, -1})
 	}
-	be := newBackend(kind, cache.Config{})
+	be := newBackend(kind, cache.Config{EvictionStrategy: c16Strategies[rng.Intn(3)]})
 	collides := kind != "SyncMap"
 	b.R.Eval()
 	b.R.Count("sequences", 1)
